@@ -247,10 +247,13 @@ def strat_seam(draw):
 
 
 def strat_join():
-    x = st.one_of(
-        gen.progs(CFG).map(lambda p: {'k': 'prog', 'p': p}),
-        gen.progs(CFG).map(lambda p: {'k': 'prog', 'p': p}),
-        gen.texts(0, 4).map(lambda t: {'k': 'str', 't': t}),
+    # plain str arguments may carry escape sequences here (also unterminated ones / styles left open): join must still
+    # equal the left fold of +, whatever each str parses to
+    coded = st.lists(st.sampled_from(['a', 'b ', '\x1b[1m', '\x1b[31m', '\x1b[m', '\x1b[0;4m', 'é', '\x1b[38;5;3m', '\x1b[22m']), max_size=4).map(''.join)
+    x = gen.weighted(
+        (4, gen.progs(CFG).map(lambda p: {'k': 'prog', 'p': p})),
+        (2, gen.texts(0, 4).map(lambda t: {'k': 'str', 't': t})),
+        (3, coded.map(lambda t: {'k': 'str', 't': t})),
     )
     return st.fixed_dictionaries({'xs': st.lists(x, max_size=5)})
 
